@@ -376,7 +376,9 @@ def binop(I, node, op, l, r):
             ok, u = ueq(l.unit, r.unit)
             if not ok:
                 I.type_error(node, "QTY", f"[{ustr(l.unit)}] {'+' if isinstance(op, ast.Add) else '−'} "
-                                          f"[{ustr(r.unit)}]", units=(l.unit, r.unit))
+                                          f"[{ustr(r.unit)}]", units=(l.unit, r.unit),
+                             sub=("literal" if (l.unit == ONE and l.tag("isnum")) or (r.unit == ONE and r.tag("isnum"))
+                                  or l.tag("ones") or r.tag("ones") else "mismatch"))
                 u = None
             out.unit = u
         else:
